@@ -711,4 +711,13 @@ def r01_7(ctx):
                f"no constant remaining-length check dominates the {width}-byte vector load of simd_str2int")
 
 
-RULES = [("R01.1", r01_1), ("R01.2", r01_2), ("R01.2b", r01_2b), ("R01.3", r01_3), ("R01.4", r01_4), ("R01.5", r01_5), ("R01.6", r01_6), ("R01.7", r01_7)]
+def r01_8(ctx):
+    """no leak on an error path of the bitwise hand-over (shared with C16: R16.2)"""
+    from .c16 import r16_2
+    r16_2(ctx)
+    for o in ctx.obligations:
+        if o["rule"] == "R16.2":
+            o["rule"] = "R01.8"
+
+
+RULES = [("R01.1", r01_1), ("R01.2", r01_2), ("R01.2b", r01_2b), ("R01.3", r01_3), ("R01.4", r01_4), ("R01.5", r01_5), ("R01.6", r01_6), ("R01.7", r01_7), ("R01.8", r01_8)]
